@@ -32,7 +32,13 @@ func rollLog(fr *frame, fn *ssa.Function, args []value) (value, bool) {
 	src := args[0].(*value)
 	px.drawBound()
 	t := px.newSym("draw", fmt.Sprintf("draw%d", px.nDraw), 64)
-	face := 1 + px.nDraw%2
+	// alternating 1, 2 per generator: two generators that are used the same
+	// way roll the same faces whatever else happens in between
+	if px.drawsByRecv == nil {
+		px.drawsByRecv = map[*value]int{}
+	}
+	face := 1 + px.drawsByRecv[src]%2
+	px.drawsByRecv[src]++
 	if face > n {
 		face = n
 	}
